@@ -174,6 +174,7 @@ func (x *c10Run) e2eBuild(o *c10Origin, id, dir string) (*Client, *Request) {
 				panic("c10: runaway retry loop")
 			}
 			resp, err := rt.RoundTrip(rq)
+			x.lastTrace = rq.trace // the trace object this attempt filled
 			var e *c10Err
 			if err != nil && !errors.As(err, &e) {
 				kind := "t"
@@ -240,11 +241,25 @@ func TestVerif_C10_e2e(t *testing.T) {
 			tc.hooks = []string{"N"}
 			tc.reqOps = append(tc.reqOps, "ah0")
 		}
+		if r.Intn(4) == 0 {
+			// the context ends while the loop is between two attempts: cancelled by the interval
+			// function, or by the caller during the wait — the last response must come back complete
+			tc.ivx, tc.ivxWait = 1+r.Intn(2), r.Intn(2) == 0
+			s.Count("ctx-ends-between-attempts")
+		}
+		tc.noBodyObs = tc.method == "HEAD"
+		if tc.dump {
+			tc.obsDump = "1"
+		}
+		if tc.trace {
+			tc.obsTrace = "1"
+		}
 		x := &c10Run{tc: tc}
 		id := strconv.Itoa(i)
 		d := dir + "/" + id
 		var resp *Response
 		x.lastXAtt = -1
+		x.kept = "K-"
 		_, panicked := verifh.Safely(func() {
 			_, rq := x.e2eBuild(o, id, d)
 			defer x.cancel()
@@ -282,10 +297,16 @@ func TestVerif_C10_e2e(t *testing.T) {
 			var e *c10Err
 			if errors.As(resp.Err, &e) {
 				es = strconv.Itoa(e.attempt) + "/" + e.kind
+			} else if resp.Err == context.Canceled || resp.Err == context.DeadlineExceeded {
+				es = strconv.Itoa(resp.Request.RetryAttempt-1) + "/x" // ctx.Err() itself: the wait step
 			} else if resp.Err != nil {
 				es = "?"
 			}
 			x.final = "R" + rs + ":" + es
+			x.observeKept(resp)
+			if ok && x.keptBad != "" {
+				ok, why = false, x.keptBad
+			}
 		}
 		// oracle on the origin's captures
 		if ok && x.maxRetr >= 0 && len(caps) > x.maxRetr+1 {
